@@ -456,7 +456,12 @@ impl Clone for Common<DynamicClone> {
     fn clone(&self) -> Self {
         unsafe {
             let result = Common {
-                storage: NonNull::new_unchecked(alloc(self.layout)),
+                storage: if self.layout.size() == 0 {
+                    // Nothing allocated yet; `alloc` must not be called with a zero size
+                    self.storage
+                } else {
+                    NonNull::new_unchecked(alloc(self.layout))
+                },
                 layout: self.layout,
                 cursor: self.cursor,
                 info: self.info.clone(),
